@@ -76,7 +76,7 @@ template <class T> struct Cell
    T operator-(const T& b) const
    {
       T a = *p;
-      if(a == v_sub_a && b == v_sub_b) { g_sub_hits++; return v_sub; }
+      if(a == v_sub_a && b == v_sub_b) { g_sub_hits = 1; return v_sub; }
       return nondet_ll();
    }
    /* accumulation y[i] += v */
